@@ -38,7 +38,7 @@ func main() {
 
 	// reset what the prelude touched, then run the sweep into a scratch report
 	for i := range verifrt.CovHit0 {
-		verifrt.CovHit0[i], verifrt.CovHit1[i] = 0, 0
+		verifrt.CovHit0[i], verifrt.CovHit1[i], verifrt.CovProp[i] = 0, 0, 0
 	}
 
 	scratch := ev.New(prop, "scratch", verifrt.Variant)
@@ -98,6 +98,28 @@ func main() {
 	r.Transitions.Add(scratch.Transitions.Load())
 	r.Evals.Add(int64(total))
 	r.Distinct.Add(int64(both))
+	var neverProp []string
+
+	nProp, seenProp := 0, 0
+
+	for _, id := range verifrt.CovPropSites {
+		if !strings.HasPrefix(verifrt.CovNames[id], pkg) {
+			continue
+		}
+
+		nProp++
+
+		if verifrt.CovProp[id] == 1 {
+			seenProp++
+		} else {
+			neverProp = append(neverProp, verifrt.CovNames[id])
+		}
+	}
+
+	r.Bound("carries_with_carry_in", nProp)
+	r.Bound("carries_seen_raised_by_carry_in_alone", seenProp)
+	r.Note("carries never seen raised by their carry-in alone (operands sum to 2^64-1 resp. are equal, carry-in 1): %v", neverProp)
+	fmt.Fprintf(os.Stderr, "propagation coverage %s: %d of %d; never: %v\n", pkg, seenProp, nProp, neverProp)
 	r.Note("carry/borrow bits never seen as 1: %v", never1)
 	r.Note("carry/borrow bits never seen as 0: %v", never0)
 	r.Sample(map[string]any{"carry_sites": total, "seen_both_ways": both, "never_1": len(never1), "never_0": len(never0)})
